@@ -247,6 +247,7 @@ func (e *env) judge(c *cell, o observation) {
 			e.violation(c, o, "opt-duplicated:"+fam+":"+own, "more than one OPT record in the response", nil)
 		default:
 			op := opts[0]
+			r.Bucket(fmt.Sprintf("opt_version_checked:%s:request-version=%d", own, c.form.Version), 1)
 			if op.Version() != 0 {
 				e.violation(c, o, "opt-version:"+own, fmt.Sprintf("EDNS version %d in the response (the request carried version %d)", op.Version(), c.form.Version),
 					map[string]any{"observed_version": op.Version(), "request_version": c.form.Version})
